@@ -455,13 +455,16 @@ def run(cx):
                    "local outbound_request_layer has a definition that is not one of the BoxLayer::new sites", start.path)
         check_constructed_only_in(ob, prog, "anemo::network::NetworkInner", ["anemo::network::Builder::start"])
         check_field_writers(ob, prog, "anemo::network::NetworkInner", "outbound_request_layer", [], kinds=("mutref", "write", "move"))
-        # NetworkInner::peer -> Peer::new(connection, self.outbound_request_layer.clone(), ..)
-        pb = cx.body("anemo::network::NetworkInner::peer")
-        pn = pb.calls_to("anemo::network::peer::Peer::new")
-        ob.floor(pn, 1, "Peer::new in NetworkInner::peer", exact=True)
-        t = arg_origin(pn[0], 1)
-        ob.require(mentions_field(t, "outbound_request_layer") and mentions_param(t, "self"), "peer/layer-arg", f"Peer::new layer argument is {show(t)}", pb.path)
-        check_callers(ob, prog, "anemo::network::peer::Peer::new", ["anemo::network::NetworkInner::peer"], exact=1, what="Peer::new")
+        # every Peer is built with the network's own outbound layer: Peer::new(connection, self.outbound_request_layer.clone(), ..)
+        # at each construction site inside NetworkInner (whatever method it lives in)
+        pns = prog.callers_of("anemo::network::peer::Peer::new", crates=["anemo"])
+        ob.floor(pns, 1, "Peer::new call sites")
+        for c in pns:
+            t = arg_origin(c, 1, Origins(c.body))
+            own = owner_path(prog, c.body)
+            ob.require(own.startswith("anemo::network::NetworkInner::") and mentions_field(t, "outbound_request_layer") and (mentions_param(t, "self") or mentions_upvar(t, "self"))
+                       and not term_has_call(t, ("BoxLayer::new", "Identity::new", "Default::default")),
+                       f"peer/layer-arg/{own}", f"Peer::new layer argument in {c.body.path} is {show(t)[:100]}", c.body.path, c.body.loc(c.bb))
         check_constructed_only_in(ob, prog, "anemo::network::peer::Peer", ["anemo::network::peer::Peer::new", "<anemo::network::peer::Peer as core::clone::Clone>::clone"])
         nb = cx.body("anemo::network::peer::Peer::new")
         t = Origins(nb).of_local(0)
@@ -486,5 +489,8 @@ def run(cx):
         ob.require(any(name_matches(c.fn, "tower_service::Service::call") for c in rb.calls()) and not rb.calls_to("anemo::network::peer::Peer::do_rpc"),
                    "peer-rpc/through-call", "Peer::rpc bypasses Service::call", rb.path)
         nr = cx.coroutine("anemo::network::NetworkInner::rpc")
-        ob.require(len(nr.calls_to("anemo::network::peer::Peer::rpc")) == 1 and len(nr.calls_to("anemo::network::NetworkInner::peer")) == 1, "network-rpc/through-peer",
-                   "NetworkInner::rpc does not go through peer().rpc()", nr.path)
+        n_rpc = len(nr.calls_to("anemo::network::peer::Peer::rpc"))
+        n_new = len(call_sites_through(prog, nr, lambda c: name_matches(c.fn, "anemo::network::peer::Peer::new"), depth=2))
+        bypass = call_sites_through(prog, nr, lambda c: name_matches(c.fn, ("anemo::network::peer::Peer::do_rpc", "anemo::connection::Connection::open_bi")), depth=1)
+        ob.require(n_rpc == 1 and n_new == 1 and not bypass, "network-rpc/through-peer",
+                   f"NetworkInner::rpc does not go through exactly one Peer (built by Peer::new) and its rpc() (Peer::rpc sites {n_rpc}, Peer::new reached {n_new}, bypass {len(bypass)})", nr.path)
